@@ -18,11 +18,11 @@ from holopy.scattering.theory.mie_f.multilayer_sphere_lib import scatcoeffs_mult
 from holopy.scattering.theory.mielensfunctions import MieScatteringMatrix, calculate_al_bl, calculate_pil_taul
 
 ID = "C02"
-LEAN_MODULES = ["HoloProps.C02"]
+LEAN_MODULES = ["HoloProps.C02", "HoloProps.C02Merge"]
 MODEL_MODULES = ["HoloModel.Mie"]
 NOT_PROVED = [
     "numerical agreement 'to solver accuracy' is a statement about rounding and series truncation: validated by the correspondence with the independent Lean Float series and by the search; the compiled SCSMFO solver is not modelled",
-    "merging adjacent equal-index layers in the interior of a particle and an outer layer with the medium's index: search only (the algebra needs Bessel Wronskians, which Mathlib lacks); the all-layers-equal case is proved",
+    "an outer layer with the medium's index scatters like the particle without it: search only (needs the constancy of the Wronskian of the Riccati-Bessel functions, i.e. their differential equation, which Mathlib lacks); the all-layers-equal case and, since round 5, the merge of adjacent equal-index layers anywhere in the particle are proved (HoloProps/C02Merge.lean: pure field algebra once the function values are the parameters)",
     "asm_mie_far computes its prefactor (2n+1)/(n(n+1)) in single precision (Fortran literals 2. and 1.): S1, S2 carry ~1e-7 relative error, which bounds 'solver accuracy' for every Mie field",
 ]
 ASSUMPTIONS = ["psi'_n = psi_{n-1} - (n/x) psi_n (Riccati-Bessel recurrence) enters C02_bh453_eq_bh488 as the form of the derivative arguments"]
